@@ -14,4 +14,18 @@ def stageMembers : List String := ["ANALYSIS", "STORE_INSPECT", "EVAL", "STORE_C
 /-- `DDSErrorCode`: (name, value) -/
 def errorCodes : List (String × Nat) := [("EVAL_IN_EVAL", 1), ("CIRCULAR_CALL", 2), ("UNKNOWN_AST_NODE", 3), ("MODULE_NOT_FOUND", 4), ("FUNCTION_NO_MODULE", 5), ("PROTOCOL_NOT_FOUND", 6), ("TYPE_NOT_SUPPORTED", 7), ("STORE_PATH_NOT_FOUND", 8), ("PATH_NOT_ABSOLUTE", 9), ("UNSUPPORTED_CALLABLE_TYPE", 10), ("AUTHORIZED_TYPE_NOT_UNDERSTOOD", 11), ("OBJECT_PATH_NOT_FOUND", 12), ("CONSTRUCT_NOT_SUPPORTED", 13), ("STORE_PATH_NOT_SUPPORTED", 14), ("ARG_IN_DATA_FUNCTION", 15), ("OVERLAPPING_PATH", 16), ("UNKNOWN_OPTION", 17), ("SEQUENCE_TOO_LONG", 18)]
 
+/-- local registry: python type ↦ reference of the codec that writes it -/
+def localTypeCodec : List (String × String) := [("str", "local.string"), ("bytes", "local.bytes"), ("bytearray", "local.bytes"), ("NoneType", "local.pickle"), ("int", "local.pickle"), ("dict", "local.pickle"), ("list", "local.pickle"), ("object", "local.pickle"), ("OrderedDict", "local.pickle"), ("pandas.DataFrame", "local.pandas")]
+/-- local registry: protocol reference ↦ class of the codec that reads it -/
+def localRefCodec : List (String × String) := [("default.pandas_local", "PandasFileCodec"), ("local.bytes", "BytesFileCodec"), ("local.pandas", "PandasFileCodec"), ("local.pickle", "PickleLocalFileCodec"), ("local.string", "StringLocalFileCodec")]
+/-- dbfs registry: python type ↦ reference of the codec that writes it -/
+def dbfsTypeCodec : List (String × String) := [("str", "local.string"), ("bytes", "local.bytes"), ("bytearray", "local.bytes"), ("NoneType", "local.pickle"), ("int", "local.pickle"), ("dict", "local.pickle"), ("list", "local.pickle"), ("object", "local.pickle"), ("OrderedDict", "local.pickle"), ("pandas.DataFrame", "local.pandas")]
+/-- dbfs registry: protocol reference ↦ class of the codec that reads it -/
+def dbfsRefCodec : List (String × String) := [("dbfs.bytes", "BytesFileCodec"), ("dbfs.pickle", "PickleLocalFileCodec"), ("dbfs.pyspark", "PySparkDatabricksCodec"), ("dbfs.string", "StringLocalFileCodec"), ("local.bytes", "BytesFileCodec"), ("local.pandas", "PandasFileCodec"), ("local.pickle", "PickleLocalFileCodec"), ("local.string", "StringLocalFileCodec")]
+
+/-- `set_store('dbfs', commit_type=s)`: spelling ↦ resulting `CommitType` member (none: rejected) -/
+def commitTypeSpellings : List (String × Option String) := [("full", some "FULL"), ("links_only", some "LINK_ONLY"), ("none", some "NO_COMMIT"), ("FULL", some "FULL"), ("LINK_ONLY", some "LINK_ONLY"), ("NO_COMMIT", some "NO_COMMIT"), ("link_only", some "LINK_ONLY"), ("no_commit", some "NO_COMMIT"), ("Links_Only", some "LINK_ONLY"), ("bogus", none)]
+def commitTypeDefault : String := "FULL"
+def commitTypeMembers : List String := ["NO_COMMIT", "LINK_ONLY", "FULL"]
+
 end Dds.Facts
